@@ -1,4 +1,6 @@
 """C01 - GEMINI scores equal their defining statistical distances."""
+import warnings
+
 import numpy as np
 from sklearn.metrics import pairwise_distances
 from hypothesis import strategies as st
@@ -38,8 +40,27 @@ def check_score(g, P, A, base, ovo, label):
         if not np.isfinite(v) or abs(v - ref) > R.score_tol(base, A, ref):
             raise Violation(f"{label}: library score {v!r} != defining distance {ref!r} "
                             f"(tolerance {R.score_tol(base, A, ref):.3g})" + (f" for P={P.tolist()}" if P.size <= 40 else f" for P of shape {P.shape}"))
+    if A is not None and len(P) <= 64:
+        # array-likes that share their buffer with what np.asarray returns (ndarray subclasses such as np.memmap,
+        # objects with __array__): the objective may read them, twice in a row, but they remain the caller's
+        for wrap in (lambda M: M.view(_ArraySubclass),):  # (np.matrix changes the meaning of * and sum: not an array-like here)
+            As = wrap(A.copy())
+            with warnings.catch_warnings():
+                warnings.simplefilter("ignore")
+                w1 = float(np.asarray(g(P, As, return_grad=True)[0]))
+                w2 = float(np.asarray(g(P, As)))
+            if not np.array_equal(np.asarray(As), A):
+                raise Violation(f"{label}: evaluating the score modified the caller's affinity (given as {type(As).__name__})")
+            for w in (w1, w2):
+                if not np.isfinite(w) or abs(w - ref) > R.score_tol(base, A, ref):
+                    raise Violation(f"{label}: library score {w!r} != defining distance {ref!r} when the affinity is given as "
+                                    f"{type(As).__name__} (second evaluation on the same object included)")
     floor = 0.5 if base == "chi2" else 0.0
     return ref, (len(P) >= 2 and ref > floor + 1e-6)
+
+
+class _ArraySubclass(np.ndarray):
+    """a trivial ndarray subclass: np.asarray of it is a base-class *view* of the same buffer"""
 
 
 # ------------------------------------------------------------------------------------------------ f-divergences
@@ -197,8 +218,40 @@ def huge_nk_case(draw):
     return {"g": gs, "p": draw(gens.p_spec(n_min=660, n_max=1700, k_min=26, k_max=48)), "x": draw(gens.x_spec(d_max=2, kinds=("normal",)))}
 
 
+@st.composite
+def mmd_eps_case(draw):
+    """epsilon is a documented constructor parameter: with a raised epsilon and confident predictions part of the entries is
+    clipped; the MMD objectives then are exactly the MMD GEMINI of the clipped predictions (cluster distributions are
+    normalised by their own mass)"""
+    a = draw(gens.kernel_spec(forms=("named", "precomputed", "psd"), names=["linear", "polynomial", "rbf", "laplacian"]))
+    return {"ovo": draw(st.booleans()), "a": a, "eps": draw(st.sampled_from([1e-3, 1e-2, 0.05])),
+            "p": draw(gens.p_spec(n_max=12, k_max=5, scales=[10.0, 20.0, 40.0, 4.0])),
+            "x": draw(gens.x_spec(kinds=("scaled", "normal", "mixed_units", "big")))}
+
+
+def oracle_mmd_eps(case):
+    P = gens.build_P(case["p"], floor=0)
+    a = case["a"]
+    X = gens.build_X(case["x"], len(P), nonneg=gens.needs_nonneg(a))
+    g, A, Aref = make_mmd(a, case["ovo"], X)
+    g.epsilon = case["eps"]
+    A = np.ascontiguousarray(A, dtype=float)
+    label = f"MMDGEMINI(ovo={case['ovo']}, {a['form']}:{a['name']}{a['params']}, epsilon={case['eps']})"
+    Pc = np.clip(P, case["eps"], 1 - case["eps"])
+    ref = R.gemini("mmd", case["ovo"], Pc, A)
+    v = float(np.asarray(g(P, A)))
+    tol = R.score_tol("mmd", A, ref)
+    clipped = int(np.sum((P < case["eps"]) | (P > 1 - case["eps"])))
+    if not np.isfinite(v) or abs(v - ref) > tol:
+        raise Violation(f"{label}: library score {v!r} != MMD GEMINI of the predictions clipped to [epsilon, 1-epsilon] {ref!r} "
+                        f"(tolerance {tol:.3g}; {clipped} clipped entries)" + (f" for P={P.tolist()}" if P.size <= 40 else ""))
+    return {"nontrivial": bool(clipped > 0 and ref > 1e-9 * R.natural_scale("mmd", A)), "classes": [f"eps={case['eps']}", "kernel:" + a["name"]],
+            "counts": {"clipped_entries": clipped}}
+
+
 def subs():
     return [
+        Sub("mmd_raised_epsilon", mmd_eps_case(), oracle_mmd_eps, 600, 10000, "MMD with epsilon 1e-3..0.05 and confident predictions (clipped entries)"),
         Sub("huge_nk", huge_nk_case(), oracle_large, 40, 500, "n*K^2 beyond 2^20 (n up to 1700 with K up to 48)"),
         Sub("huge_n", huge_case(), oracle_large, 80, 800, "n in (1024, 2600]: block sizes of 1024/2048 rows"),
         Sub("wasserstein_large", wass_large_case(), oracle_large, 16, 500, "Wasserstein on 40-150 samples, up to 6 clusters (LP reference)"),
